@@ -10,10 +10,12 @@ EXPLANATION = (
     "by the real code (one path per tick count). Per path: the step is a concrete number of the form {1,2,5}*10^k; z3 proves the ticks are the "
     "consecutive multiples T_0 + i*step, T_0 is the first multiple >= min (T_0 - step < min), the last tick is the last multiple <= max, T_0/step is "
     "an integer; the count lies in [floor(0.57 m), 1.43 m + 1]; every label is a hole '.Nf' applied to exactly its tick and step*10^N is an integer, "
-    "so each label is the exact decimal of its tick (distinct ticks -> distinct texts, read-back error 0)."
+    "so each label is the exact decimal of its tick (distinct ticks -> distinct texts, read-back error 0). History configurations (round 4): the same "
+    "assertions on a scale object that was asked for ticks()/tickFormat() BEFORE nice(m) widened its domain, or before it was re-ranged, clamped and "
+    "copied and the original re-domained: the ticks must be those of the domain the scale reports at the time of asking."
 )
 BOUNDS = {
-    "quick": dict(domain="end points in [-1e9,1e9], span in [1e-9,1e12] and >= 1e-6*|end point|, either order", m="1, 2, 5, 10, default; 100 (ascending only)", log10_window="k in [-13,14]"),
+    "quick": dict(domain="end points in [-1e9,1e9], span in [1e-9,1e12] and >= 1e-6*|end point|, either order", m="1, 2, 5, 10, default; 100 (ascending only)", histories="ticks-then-nice (m=5 asc, m=2 desc), ticks-then-range/clamp/copy/re-domain (m=2 asc, m=5 desc) with span in [0.5,5000] and end points in [-5000,5000]", log10_window="k in [-13,14]"),
     "thorough": dict(m="1..20, default, 100 (ascending)"),
 }
 OUTSIDE = ["m other than those listed (the statement goes to 100)", "float drift of the accumulating generator and float effects at the two ends (the statement's own caveat): exact arithmetic here", "10**-k is the decimal 1/10^k, not its binary64 neighbour"]
